@@ -682,6 +682,23 @@ def diffo_line(t1, t2, zip_, thr, vb, case, strtype, numtype, sig, eps, ex_types
         len(ex_types), ' '.join(enc_str(TYPE_NAMES[t]) for t in ex_types), ' '.join(val_tokens(t1)), ' '.join(val_tokens(t2)))
 
 
+def collapsing_set(v, hkw):
+    """a set two of whose members get one digest under the options (1.5 and 2.25 at significant_digits=0): the implementation keeps one item per digest, which one
+    depends on the iteration order of the set -- outside the model universe (the region of finding F29)"""
+    from deepdiff import DeepHash
+    if isinstance(v, (set, frozenset)):
+        try:
+            hs = [DeepHash(m, **hkw)[m] for m in v]
+        except Exception:
+            return True
+        return len(set(hs)) < len(hs)
+    if isinstance(v, dict):
+        return any(collapsing_set(x, hkw) for x in v.values())
+    if isinstance(v, (list, tuple)):
+        return any(collapsing_set(x, hkw) for x in v)
+    return False
+
+
 def model_correspondence(ctx):
     from deepdiff import DeepDiff
     n = 700 if ctx.thorough() else 100
@@ -718,6 +735,9 @@ def model_correspondence(ctx):
             if ex_types: kw['exclude_types'] = ex_types
             case_d = {'clause': 'model', 'x': repr(t1), 'y': repr(t2), 'zip': zip_, 'kw': {k: (v if not isinstance(v, list) else [t.__name__ for t in v]) for k, v in kw.items()}}
             ctx.evaluations += 1
+            hkw_ = {k: v for k, v in kw.items() if k in ('ignore_string_case', 'ignore_string_type_changes', 'ignore_numeric_type_changes', 'significant_digits')}
+            if collapsing_set(t1, hkw_) or collapsing_set(t2, hkw_):
+                ctx.count('corr_out_of_universe:collapsing_set'); continue
             try:
                 dd = DeepDiff(t1, t2, **kw)
                 a = DF.impl_answer(dd, vb)
